@@ -17,11 +17,12 @@ EXTENDS MechScalar, FiniteSets
 Level(op) == CASE op \in {"&&", "||", "xor"} -> 1
                [] op \in {"==", "!=", "<", "<=", ">", ">="} -> 2
                [] op \in {"+", "-"} -> 3
-               [] op \in {"*", "/", "%"} -> 4
+               [] op \in {"*", "/", "%", "**"} -> 4          \* "**" (matrix multiply) stands for the matrix operators
                [] op = "^" -> 5
 MaxLevel == 5
 
-Leaf(o)       == [k |-> "leaf", neg |-> o.neg, v |-> o.v]
+(* an operand carries at most one unary mark un: "neg" (leading minus), "not" (leading !), "tr" (trailing ') or "none" *)
+Leaf(o)       == [k |-> "leaf", neg |-> o.neg, un |-> o.un, v |-> o.v]
 Bin(op, l, r) == [k |-> "bin", op |-> op, l |-> l, r |-> r]
 
 (* ----------------------------------------------- precedence climbing *)
@@ -47,7 +48,7 @@ TreeD(toks) ==
 
 (* in-order traversal *)
 RECURSIVE InOrder(_)
-InOrder(t) == IF t.k = "leaf" THEN <<[neg |-> t.neg, v |-> t.v]>> ELSE InOrder(t.l) \o <<t.op>> \o InOrder(t.r)
+InOrder(t) == IF t.k = "leaf" THEN <<[neg |-> t.neg, un |-> t.un, v |-> t.v]>> ELSE InOrder(t.l) \o <<t.op>> \o InOrder(t.r)
 
 (* ---------------------------------------------------------- evaluation *)
 Big(x) == x.t = "num" /\ (Abs(x.n) > 1000000 \/ x.d > 1000)
@@ -55,13 +56,17 @@ SafeOp(op, a, b) ==
   IF a.t # b.t THEN Undef
   ELSE IF op \in LogicOps /\ a.t # "bool" THEN Undef
   ELSE IF op \in (ArithOps \cup {"<", "<=", ">", ">="}) /\ a.t # "num" THEN Undef
+  ELSE IF op = "**" THEN Undef
   ELSE IF Big(a) \/ Big(b) THEN Undef
   ELSE IF op = "^" /\ (Abs(a.n) > 30 \/ a.d # 1 \/ b.d # 1 \/ b.n > 4 \/ b.n < 0) THEN Undef
   ELSE ScalarOp(op, FltClass, a, b)
 
 RECURSIVE Eval(_)
 Eval(t) ==
-  IF t.k = "leaf" THEN (IF t.neg THEN UnaryOp("neg", FltClass, t.v) ELSE Def(t.v))
+  IF t.k = "leaf" THEN (IF t.un = "neg" THEN UnaryOp("neg", FltClass, t.v)
+                        ELSE IF t.un = "tr" THEN Undef                 \* transposing a scalar is not accepted: tree only
+                        ELSE IF t.un = "not" THEN Undef                \* operands are numbers: not is ill-kinded
+                        ELSE Def(t.v))
   ELSE LET a == Eval(t.l)
            b == Eval(t.r) IN
        IF a.def /\ b.def THEN SafeOp(t.op, a.v, b.v) ELSE Undef
